@@ -100,23 +100,30 @@ def specOK (observed : List Cfg) : Bool := observed.all cfgOK
 /-- the classes of interruption points at which the config is missing (canonical signatures) -/
 inductive Loss where
   | nonAtomicWindow         -- non-atomic: only the initial Remove(config) of upgradeRepository has happened
-  | nonAtomicFailure        -- non-atomic: the save of the new config failed, the old one is not back yet
-  | nonAtomicDoubleFailure  -- non-atomic: run finished, new config and re-upload both failed
-  | atomicContingency       -- atomic: the contingency path removed the config
+  | nonAtomicFailure        -- non-atomic: an operation failed, the old config is not back yet
+  | nonAtomicDoubleFailure  -- non-atomic: run finished, two operations failed, the last one being the re-upload
+  | atomicContingency       -- atomic: the config was removed
+  | unclassified            -- anything else (never expected)
 deriving DecidableEq, Repr
 
 /-- class of a state without config, from the steps performed before it; `final` = the run was not
     interrupted -/
 def lossAt (atomic : Bool) (before : List Step) (final : Bool) : Loss :=
+  let failed := (before.filter (fun s => !s.ok)).length
+  let lastIsFailedSave := match before.getLast? with
+    | some s => !s.ok && s.op != .remove
+    | none => false
   if atomic then .atomicContingency
-  else if before.length == 1 then .nonAtomicWindow
-  else if final then .nonAtomicDoubleFailure
-  else .nonAtomicFailure
+  else if before.length == 1 && failed == 0 then .nonAtomicWindow
+  else if final then (if failed ≥ 2 && lastIsFailedSave then .nonAtomicDoubleFailure else .unclassified)
+  else if failed ≥ 1 then .nonAtomicFailure
+  else .unclassified
 
 def Loss.signature : Loss → String
   | .nonAtomicWindow => "C31:crash-between-remove-config-and-save:non-atomic"
   | .nonAtomicFailure => "C31:failed-save-before-reupload:non-atomic"
   | .nonAtomicDoubleFailure => "C31:save-and-reupload-both-failed:non-atomic"
   | .atomicContingency => "C31:contingency-removes-config:atomic"
+  | .unclassified => "C31:config-missing:unclassified"
 
 end Restic.Model.Upgrade
